@@ -48,8 +48,10 @@ def plan(tier, seed, kf_ids):
 
     def ext(fname, name, code, desc, inst, timeout=1200, bounds="all operands", kf=None):
         files[fname].append(code)
-        jobs.append(Job(name, "", desc + " - no overflow / shift / debug_assert check of the checking profile can fire",
-                        timeout=timeout, inst=inst, bounds=bounds, kf=kf))
+        j = Job(name, "", desc + " - no overflow / shift / debug_assert check of the checking profile can fire",
+                timeout=timeout, inst=inst, bounds=bounds, kf=kf)
+        j.genfile = fname
+        jobs.append(j)
 
     for s, w in c.FAMILIES:
         f = w // 2
@@ -111,12 +113,12 @@ def plan(tier, seed, kf_ids):
     # math functions (Result-returning): full operand range on the 32-bit type
     a = "I9F23"
     j = T.total1("c11", "exp", a, a, T.FULL, "all", 26, T.BIG, bounds="all 2^32 operands")
-    files["gen_c12.rs"].append(j.code); j.code = ""; jobs.append(j)
+    files["gen_c12.rs"].append(j.code); j.code = ""; j.genfile = "gen_c12.rs"; jobs.append(j)
     j = T.trig("c11", "sin", a, T.FULL, "all", 30, T.BIG, 200)
-    files["gen_c12.rs"].append(j.code); j.code = ""; jobs.append(j)
+    files["gen_c12.rs"].append(j.code); j.code = ""; j.genfile = "gen_c12.rs"; jobs.append(j)
     if not q:
         j = T.total1("c11", "log2", a, a, T.FULL, "all", 36, T.BIG, timeout=2400, bounds="all 2^32 operands")
-        files["gen_c12.rs"].append(j.code); j.code = ""; jobs.append(j)
+        files["gen_c12.rs"].append(j.code); j.code = ""; j.genfile = "gen_c12.rs"; jobs.append(j)
     for k in kf_ids:
         jobs.append(Job("kfw_" + k, "", "witness of known finding %s (concrete operands)" % k, timeout=300, kf=k,
                         inst="witness", bounds="concrete operands"))
